@@ -459,7 +459,33 @@ def strat_long(tier):
                                       unique_by=lambda t: t[0]))
   return st.fixed_dictionaries(dict(p=big, q=st.sampled_from([0, 0, 1]).flatmap(lambda k: terms() if k else big),
                                     v=fr.filter(lambda t: t != 0),
-                                    routes=st.tuples(st.sampled_from(ROUTES), st.sampled_from(ROUTES))))
+                                    routes=st.tuples(st.sampled_from(ROUTES), st.sampled_from(ROUTES)),
+                                    spell=st.sampled_from(["fraction", "int", "float"]),
+                                    idx=st.integers(0, 45)))
+
+
+def creation(a):
+  """Powers in creation order (used for labels only, never for a verdict)."""
+  return [k for k, _ in a.terms(sort=False)]
+
+
+def eq_hash_key(a, b, what):
+  """a and b are the same polynomial reached by two ways: ==, !=, hash and dict / set membership agree."""
+  if not (a == b) or not (b == a):
+    raise Violation("%s: the two %d-term results are not ==" % (what, len(a)))
+  if (a != b) or (b != a):
+    raise Violation("%s: == and != both hold (%d terms)" % (what, len(a)))
+  if hash(a) != hash(b):
+    raise Violation("%s: equal polynomials (%d terms) hash differently: %d vs %d; powers in creation order "
+                    "start %r / %r" % (what, len(a), hash(a), hash(b), creation(a)[:8], creation(b)[:8]))
+  if {a: what}.get(b) != what or b not in {a} or len({a, b}) != 1:
+    raise Violation("%s: equal polynomials (%d terms) are different dict keys / set members" % (what, len(a)))
+  return creation(a) != creation(b)
+
+
+def differ(a, b, what):
+  if (a == b) or (b == a) or not (a != b) or not (b != a):
+    raise Violation("%s: different %d-term polynomials compare ==%r !=%r" % (what, len(a), a == b, a != b))
 
 
 def run_long(c):
@@ -481,13 +507,52 @@ def run_long(c):
   v = c["v"]
   if (p * q)(v) != m_eval(P, v) * m_eval(Qm, v):
     raise Violation("(p*q)(v) != p(v)*q(v) for long polynomials at %r" % (v,))
-  return {"nontrivial": len(P) >= 33, "labels": ["both long" if len(Qm) >= 33 else "long x short"]}
+  labels = ["both long" if len(Qm) >= 33 else "long x short"]
+  # p == q implies hash(p) == hash(q) and not p != q -- also for long polynomials whose terms came into
+  # being in a different order: operands swapped, the other side of a ring law, typed in from the other
+  # end / in another numeric spelling, rebuilt from the independent model in ascending order
+  how = c.get("spell", "fraction")
+  tp, tq = plain(c["p"]), plain(c["q"])
+  back = lambda tl, rt: build([(k, spell(cc, how)) for k, cc in reversed(tl)], rt)
+  asc = lambda m: Poly(dict(sorted(m.items())))
+  desc = lambda m: Poly(dict(sorted(m.items(), reverse=True)))
+  pq, qp, pp = p * q, q * p, p * p
+  pairs = [
+    ("p+q vs q+p", p + q, q + p),
+    ("p*q vs q*p", pq, qp),
+    ("p*(q+p) vs p*q+p*p", p * (q + p), pq + pp),
+    ("(p+q)-q vs p", (p + q) - q, build(tp, c["routes"][0])),
+    ("(q+p)-q vs p typed in backwards", (q + p) - q, back(tp, c["routes"][1])),
+    ("p vs p typed in backwards (%s, %s)" % (c["routes"][1], how), build(tp, c["routes"][0]), back(tp, c["routes"][1])),
+    ("p ascending vs descending powers", asc(P), desc(P)),
+    ("p*q vs the same product typed in by ascending power", pq, asc(m_mul(P, Qm))),
+    ("q+p vs the same sum typed in by descending power", q + p, desc(m_add(P, Qm))),
+    ("p*p vs (-p)*(-p)", pp, (-p) * (-p)),
+  ]
+  reordered = sum(1 for what, a, b in pairs if eq_hash_key(a, b, what) and len(a) >= 33)
+  labels.append("eq/hash on %s long pairs with different creation order" % ("6+" if reordered >= 6 else "<6"))
+  if how != "fraction":
+    labels.append("eq/hash across numeric spellings")
+  # ... and long polynomials that differ in a single term (early or late in creation order) are not ==
+  i = c.get("idx", 0) % len(tp)
+  ki, ci = tp[i]
+  one_coeff = [(k, cc + 1 if j == i else cc) for j, (k, cc) in enumerate(tp)]
+  one_power = [((k + 100) if j == i else k, cc) for j, (k, cc) in enumerate(tp)]
+  if ci != 0:
+    differ(build(tp, c["routes"][0]), back(one_coeff, c["routes"][1]), "one coefficient of %d changed" % len(tp))
+    differ(build(tp, c["routes"][0]), back(one_power, "dict"), "one power of %d moved" % len(tp))
+    differ(pq + F(1, 7) * x ** ki, qp, "p*q plus one more term vs q*p")
+    labels.append("single-term difference " + ("late" if i >= 24 else "early"))
+  return {"nontrivial": len(P) >= 33, "labels": labels}
 
 
 CLAUSES = [
   Clause("long_polynomials", strat_long, run_long, quick=60, thorough=1200,
-         floors={"both long": .2},
-         doc="products / sums of polynomials with 34..46 terms and non-dyadic rational coefficients stay exact"),
+         floors={"both long": .2, "eq/hash on 6+ long pairs with different creation order": .3,
+                 "eq/hash across numeric spellings": .2},
+         doc="products / sums of polynomials with 34..46 terms and non-dyadic rational coefficients stay exact; "
+             "the same long polynomial reached in different term-creation orders is ==, not !=, hash-equal "
+             "and one dict key"),
   Clause("ring", strat_ring, run_ring, quick=1800, thorough=40000,
          floors={"negative powers": .2, "cancellation": .02},
          doc="+ - * ** vs independent arithmetic; commutative/associative/distributive; no stored zero"),
